@@ -8,6 +8,7 @@ package service
 import (
 	gocontext "context"
 
+	"github.com/orda-io/orda/client/pkg/context"
 	"github.com/orda-io/orda/client/pkg/model"
 	"github.com/orda-io/orda/client/pkg/vf"
 	"github.com/orda-io/orda/server/utils"
@@ -208,4 +209,58 @@ func VF_C12_MultiPack() {
 	}
 	vf.Quiesce()
 	vf.Assert(w.lockFree(1, "K1") && w.lockFree(1, "K2"), "C12 both per-key locks are free afterwards")
+}
+
+// VF_C12_LockExclusion: the per-key lock itself, used by three (thorough: four)
+// overlapping requests as the handlers use it (get the named lock, TryLock,
+// critical section, Unlock): at no moment are two callers inside the critical
+// section of one name, a caller that got the lock always leaves it free, and a
+// different name is never blocked.  A chain "A holds, B waits, A leaves, C
+// arrives while B holds" needs three callers; two never expose it.
+func VF_C12_LockExclusion() {
+	vf.Preemptions(2)
+	vf.NoSlowHolders()
+	w := vfNewWorld()
+	n := 3
+	if vf.Tier() == 1 {
+		n = 4
+	}
+	inside, maxInside, entered := 0, 0, 0
+	otherInside := 0
+	done := make(chan int, n+1)
+	for i := 0; i < n; i++ {
+		go func() {
+			rctx, cancel := vf.WithCancel(gocontext.Background())
+			l := w.mgr.GetLock(context.NewOrdaContext(rctx, "vf"), "PP:1:"+vfKey)
+			if l.TryLock() {
+				inside++
+				entered++
+				if inside > maxInside {
+					maxInside = inside
+				}
+				vf.Yield() // the critical section takes time (database round trips)
+				inside--
+				l.Unlock()
+			}
+			cancel()
+			done <- 1
+		}()
+	}
+	go func() { // a request for another key
+		l := w.mgr.GetLock(context0(), "PP:1:other")
+		if l.TryLock() {
+			otherInside++
+			vf.Yield()
+			l.Unlock()
+		}
+		done <- 1
+	}()
+	for i := 0; i < n+1; i++ {
+		<-done
+	}
+	vf.Reach("all-returned")
+	vf.Assert(maxInside <= 1, "C12 two requests are never inside the critical section of one key at the same moment")
+	vf.Assert(entered >= 1, "C12 at least one request gets the lock")
+	vf.Assert(otherInside == 1, "C12 a request for a different key is not blocked")
+	vf.Assert(w.lockFreeName("PP:1:"+vfKey) && w.lockFreeName("PP:1:other"), "C12 the locks are free afterwards")
 }
